@@ -232,3 +232,48 @@ theorem C02_volume_delta (E : Env) (path : Str) (k : Str) (hk : k ∈ volumeKeys
   · rw [← e2]; exact fromVolume_segs E path u' svc' n' hc'
 
 end Cv
+
+namespace Cv
+open MM
+
+/-! ### .container -/
+def containerKeysRead : List Str :=
+  Gen.tbl_get_base_podman_command_inline_lookup_and_add_all_strings.map Prod.fst
+    ++ [s "GlobalArgs", s "ContainerName", s "LogDriver", s "LogOpt", s "CgroupsMode"]
+    ++ Gen.tbl_from_container_unit_string_keys.map Prod.fst ++ Gen.tbl_from_container_unit_all_string_keys.map Prod.fst
+    ++ Gen.tbl_from_container_unit_bool_keys.map Prod.fst
+    ++ [s "Network", s "Notify", s "NoNewPrivileges", s "SecurityLabelDisable", s "SecurityLabelNested", s "SecurityLabelType",
+        s "SecurityLabelFileType", s "SecurityLabelLevel", s "AddDevice", s "SeccompProfile", s "DropCapability", s "AddCapability", s "Sysctl",
+        s "ReadOnly", s "VolatileTmp", s "User", s "Group"] ++ mapKeys ++ [s "Volume", s "AutoUpdate", s "ExposeHostPort"]
+    ++ Gen.tbl_handle_publish_ports_inline_lookup_and_add_all_strings.map Prod.fst
+    ++ [s "Environment", s "Label", s "Annotation", s "Mask", s "Unmask", s "EnvironmentFile", s "Secret", s "Mount"]
+    ++ Gen.tbl_handle_health_key_arg_map.map Prod.fst ++ [s "Pod", s "PodmanArgs", s "Image", s "Rootfs", s "Exec"]
+
+theorem containerSegs_reads (E : Env) (path : Str) (st : Option Str) : (containerSegs E path st).flatMap (·.reads) = containerKeysRead := by
+  unfold containerSegs containerKeysRead
+  simp only [List.flatMap_append, reads_rows (segAll (s "Container")) (fun _ => rfl), reads_rows (segString (s "Container")) (fun _ => rfl),
+    reads_rows (segBool (s "Container")) (fun _ => rfl), reads_rows (segHealth (s "Container")) (fun _ => rfl)]
+  simp [segConst, segArgs, segMulti, segLast, segStrv, segArgsWith, segKeyVal, segBoolOn, segMaps, segNetworks, segVolumes, segMounts, segPod]
+
+theorem containerKeys_nodup : containerKeysRead.Nodup := by decide
+theorem containerKeys_documented : ∀ k ∈ containerKeysRead, k ∈ Gen.SUPPORTED_CONTAINER_KEYS := by decide
+/-- every documented key of [Container] has its block in `podman run`, except the name of the service and the flag that only decides
+    whether the pod starts the container -/
+theorem containerKeys_complete : ∀ k ∈ Gen.SUPPORTED_CONTAINER_KEYS, k ∈ containerKeysRead ∨ k = s "ServiceName" ∨ k = s "StartWithPod" := by
+  decide
+
+/-- two `.container` units that convert (against the same name table), have the same `[Service] Type=` and differ only in what they
+    assign to one key of [Container]: the `podman run` commands coincide, argument for argument, before and after the block of that key -/
+theorem C02_container_delta (E : Env) (path : Str) (k : Str) (hk : k ∈ containerKeysRead) (u u' svc svc' : SUnit)
+    (link link' : Option (Str × Str))
+    (h : AgreeExcept (s "Container") k u u') (ht : lookup u (s "Service") (s "Type") = lookup u' (s "Service") (s "Type"))
+    (hc : fromContainer E path u = some (.ok (svc, link))) (hc' : fromContainer E path u' = some (.ok (svc', link'))) :
+    ∃ A g B, containerSegs E path (lookup u (s "Service") (s "Type")) = A ++ g :: B ∧ k ∈ g.reads ∧
+      HasExec svc "ExecStart" (cmdOf A u ++ g.emit u ++ cmdOf B u) ∧ HasExec svc' "ExecStart" (cmdOf A u ++ g.emit u' ++ cmdOf B u) := by
+  obtain ⟨A, g, B, hs, hkg, e1, e2⟩ := delta_of_segs (s "Container") (containerSegs E path (lookup u (s "Service") (s "Type")))
+    (containerSegs_local E path _) (by rw [containerSegs_reads]; exact containerKeys_nodup) k (by rw [containerSegs_reads]; exact hk) u u' h
+  refine ⟨A, g, B, hs, hkg, ?_, ?_⟩
+  · rw [← e1]; exact fromContainer_segs E path u svc link hc
+  · rw [← e2, ht]; exact fromContainer_segs E path u' svc' link' hc'
+
+end Cv
